@@ -240,7 +240,11 @@ func (f *Func) callGraph(args *argBuilder) (
 		}
 	}
 
-	log.Trace("full graph (may have cycles)", "graph", g.String())
+	// Rendering the graph formats every input value: only do it when the
+	// result is going to be logged.
+	if log.IsTrace() {
+		log.Trace("full graph (may have cycles)", "graph", g.String())
+	}
 
 	// Next we do a DFS from each input A in I to the function F.
 	// This gives us the full set of reachable nodes from our inputs
@@ -276,7 +280,9 @@ func (f *Func) callGraph(args *argBuilder) (
 			g.Remove(v)
 		}
 	}
-	log.Trace("graph after input DFS", "graph", g.String())
+	if log.IsTrace() {
+		log.Trace("graph after input DFS", "graph", g.String())
+	}
 
 	// Go through all our inputs. If any aren't in the graph any longer
 	// it means there is no possible path to that input so it cannot be
